@@ -71,6 +71,75 @@ fn schedule_snapshot_first_load(ctx: &Ctx, file: usize, variant: usize, root: us
     Ok(())
 }
 
+/// S3: several snapshots analyse *different roots that share an import the session has not loaded yet* at the
+/// same time (behind a barrier); afterwards the owner edits the shared file and analyses every root.  Each
+/// answer must be the fresh-session answer for the edited contents: no root may stay on the old revision.
+fn schedule_concurrent_first_load(ctx: &Ctx, threads: usize, trial: usize, stats: &mut Stats) -> Result<(), Fail> {
+    use std::sync::{Arc, Barrier};
+    stats.eval();
+    let dir = thread_dir(ctx).join(format!("cfl{trial}"));
+    let _ = std::fs::remove_dir_all(&dir);
+    std::fs::create_dir_all(&dir).unwrap();
+    let dir = dir.canonicalize().unwrap();
+    std::fs::write(dir.join("shared.zy"), "1\n").unwrap();
+    let roots: Vec<std::path::PathBuf> = (0..threads)
+        .map(|i| {
+            let p = dir.join(format!("root{i}.zy"));
+            std::fs::write(&p, "( @(import(\"shared.zy\")) , 0 )\n").unwrap();
+            p
+        })
+        .collect();
+    let mut owner = CompilerSession::default();
+    for r in &roots {
+        let _ = owner.refresh_disk(r);
+    }
+    let barrier = Arc::new(Barrier::new(threads));
+    let handles: Vec<_> = roots
+        .iter()
+        .map(|r| {
+            let snap = owner.snapshot();
+            let (r, b) = (r.clone(), barrier.clone());
+            std::thread::spawn(move || {
+                b.wait();
+                let _ = snap.analyze(&r);
+                drop(snap);
+            })
+        })
+        .collect();
+    for h in handles {
+        let _ = h.join();
+    }
+    // the owner edits the shared import: a string where an Int64-typed… any other value of another type
+    if let Err(e) = owner.set_overlay(dir.join("shared.zy"), "\"two\"\n".to_string()) {
+        return Err(Fail::new("schedule-set_overlay-failed", "Ok", format!("{e}")));
+    }
+    let describe = |session: &CompilerSession, root: &std::path::Path| -> String {
+        match session.graph(root) {
+            | Ok(g) => g.sources.iter().map(|(_, f)| format!("{}={:?}", f.path.file_name().unwrap().to_string_lossy(), f.source.trim())).collect::<Vec<_>>().join(" "),
+            | Err(e) => format!("graph error {e}"),
+        }
+    };
+    for (i, r) in roots.iter().enumerate() {
+        let live = describe(&owner, r);
+        let fresh_session = {
+            let mut s = CompilerSession::default();
+            let _ = s.set_overlay(dir.join("shared.zy"), "\"two\"\n".to_string());
+            s
+        };
+        let fresh = describe(&fresh_session, r);
+        if live != fresh {
+            return Err(Fail::new(
+                "root-stays-on-the-old-revision-after-concurrent-first-load",
+                format!("fresh session: {fresh}"),
+                format!("owner after the edit, root{i}: {live}"),
+            )
+            .with(json!({"schedule": "k snapshots first analyse k roots sharing an unloaded import, concurrently; the owner then overlays the shared file and asks for each root's graph", "threads": threads, "trial": trial})));
+        }
+    }
+    stats.nontrivial(hash_of(&(threads, trial)));
+    Ok(())
+}
+
 fn resolve_text(text: &str) -> Option<(zydeco_surface::textual::syntax::SpanArena, zydeco_surface::scoped::syntax::PrimDefs, zydeco_surface::scoped::arena::ScopedArena, zydeco_surface::scoped::syntax::TermId)> {
     use zydeco_surface::bitter::SourceUnitDesugarer;
     use zydeco_surface::scoped::Resolver;
@@ -361,6 +430,20 @@ pub fn run(ctx: &Ctx) -> Report {
         }
     }
     let r = run_items(ctx, "schedule-check-resolved", orders, |o, stats| schedule_check_resolved(o, stats));
+    report.absorb(r);
+    // (1c) concurrent first loads of a shared import, then an edit by the owner: run one trial at a time (each trial
+    // owns its threads)
+    let trials = ctx.tier.pick(120, 3_000);
+    let mut cfl_stats = Stats::new();
+    let mut cfl_violation = None;
+    for trial in 0..trials {
+        let threads = [2usize, 4, 4, 8][trial % 4];
+        if let Err(fail) = schedule_concurrent_first_load(ctx, threads, trial, &mut cfl_stats) {
+            cfl_violation = Some(Violation { fail, kind: "history".into(), tape: None, stage: "schedule-concurrent-first-load".into() });
+            break;
+        }
+    }
+    let r = (cfl_stats, cfl_violation);
     report.absorb(r);
     // (2) stress, one configuration at a time (each uses many threads itself)
     let seeds = ctx.tier.pick(10, 200);
